@@ -476,3 +476,122 @@ with xp :=
   first [ apply XP_dot; xe | apply XP_path; xe
         | eapply (XP_group _ NParens); [grp|xg] | eapply (XP_group _ NBraces); [grp|xg] | eapply (XP_group _ NBrackets); [grp|xg]
         | eapply (XP_bang _ NParens); [left; reflexivity|xg] | eapply (XP_bang _ NBrackets); [right; reflexivity|xg] ].
+
+(* ---- the lexical pieces, syntactically: block comments and string literals ---- *)
+Fixpoint no_close_rc (s : bytes) : bool :=      (* no "*/" inside *)
+  match s with
+  | [] => true
+  | x :: r => if N.eqb x 42 then match r with y :: _ => negb (N.eqb y 47) && no_close_rc r | [] => true end
+              else no_close_rc r
+  end.
+Definition rc_item : parser bytes := alt [ is_not (b "*"); terminated (tag (b "*")) (pnot (tag (b "/"))) ].
+Lemma good_rc_item : good rc_item. Proof. unfold rc_item. good_auto. Qed.
+Lemma no_close_rc_tail x r : no_close_rc (x :: r) = true -> no_close_rc r = true.
+Proof.
+  cbn [no_close_rc]. destruct (N.eqb x 42); [|auto]. destruct r as [|y t]; [reflexivity|].
+  intros H. apply andb_true_iff in H. tauto.
+Qed.
+Lemma no_close_rc_suffix a c : no_close_rc (a ++ c) = true -> no_close_rc c = true.
+Proof. induction a as [|x a IH]; intros H; [exact H|]. apply IH. eapply no_close_rc_tail. exact H. Qed.
+Lemma rc_item_star_slash r : exists e, rc_item (42%N :: 47%N :: r) = Err e.
+Proof. unfold rc_item, alt. cbn. eauto. Qed.
+Lemma rc_item_star_other c r : N.eqb c 47 = false -> exists a, rc_item (42%N :: c :: r) = Ok a (c :: r).
+Proof.
+  intros H. unfold rc_item, alt. cbn.
+  unfold terminated, bind, pmap, tag, pnot. cbn [strip_prefix].
+  rewrite (N.eqb_sym 47 c), H. eexists. reflexivity.
+Qed.
+Lemma rc_item_nonstar c r : N.eqb c 42 = false -> exists a, rc_item (c :: r) = Ok a (snd (span nonstar (c :: r))).
+Proof.
+  intros H. unfold rc_item, alt. cbn [alt']. unfold is_not, take_while1.
+  fold nonstar. cbn [span]. rewrite nonstar_spec, H. cbn [negb].
+  destruct (span nonstar r) as [a t]. eauto.
+Qed.
+Lemma many0_rc_items : forall n body rest, List.length body <= n -> no_close_rc body = true ->
+  exists l, many0 rc_item (body ++ b "*/" ++ rest) = Ok l (b "*/" ++ rest).
+Proof.
+  induction n as [|n IH]; intros body rest Hn Hc.
+  - destruct body; [|cbn in Hn; lia]. rewrite (many0_step _ (g_sfx good_rc_item)).
+    destruct (rc_item_star_slash rest) as [e He]. change ([] ++ b "*/" ++ rest) with (42%N :: 47%N :: rest). rewrite He. eauto.
+  - destruct body as [|c body].
+    + rewrite (many0_step _ (g_sfx good_rc_item)).
+      destruct (rc_item_star_slash rest) as [e He]. change ([] ++ b "*/" ++ rest) with (42%N :: 47%N :: rest). rewrite He. eauto.
+    + rewrite (many0_step _ (g_sfx good_rc_item)). cbn [app]. destruct (N.eqb c 42) eqn:Ec.
+      * apply N.eqb_eq in Ec. subst c.
+        assert (Hnext : exists x t, body ++ b "*/" ++ rest = x :: t /\ N.eqb x 47 = false).
+        { destruct body as [|y body']; [exists 42%N, (47%N :: rest); split; reflexivity|].
+          exists y, (body' ++ b "*/" ++ rest). split; [reflexivity|]. cbn [no_close_rc] in Hc. rewrite N.eqb_refl in Hc.
+          apply andb_true_iff in Hc. destruct Hc as [Hc _]. now apply negb_true_iff in Hc. }
+        destruct Hnext as [x [t [Ex Hx]]]. rewrite Ex. destruct (rc_item_star_other x t Hx) as [a0 Ha0]. rewrite Ha0.
+        assert (X : Nat.eqb (List.length (x :: t)) (List.length (42%N :: x :: t)) = false) by (apply Nat.eqb_neq; cbn; lia).
+        rewrite X. rewrite <- Ex.
+        destruct (IH body rest ltac:(cbn in Hn; lia) (no_close_rc_tail _ _ Hc)) as [l Hl]. rewrite Hl. eauto.
+      * destruct (rc_item_nonstar c (body ++ b "*/" ++ rest) Ec) as [a0 Ha0]. rewrite Ha0.
+        change (c :: body ++ b "*/" ++ rest) with ((c :: body) ++ b "*/" ++ rest).
+        rewrite (span_app_stop nonstar (c :: body) (b "*/" ++ rest)); [|right; exists 42%N, (47%N :: rest); split; reflexivity].
+        cbn [snd].
+        destruct (span_snd_suffix nonstar (c :: body)) as [pre [Hpre Hfst]].
+        assert (Lpre : pre <> []).
+        { rewrite <- Hfst. cbn [span]. rewrite nonstar_spec, Ec. cbn. destruct (span nonstar body). discriminate. }
+        set (tl := snd (span nonstar (c :: body))) in *.
+        assert (Ltl : List.length tl < List.length (c :: body)).
+        { rewrite Hpre. rewrite app_length. destruct pre; [congruence|cbn; lia]. }
+        assert (X : Nat.eqb (List.length (tl ++ b "*/" ++ rest)) (List.length ((c :: body) ++ b "*/" ++ rest)) = false).
+        { apply Nat.eqb_neq. rewrite !app_length. lia. }
+        rewrite X.
+        assert (Ctl : no_close_rc tl = true) by (apply (no_close_rc_suffix pre); now rewrite <- Hpre).
+        destruct (IH tl rest ltac:(cbn in Hn, Ltl; lia) Ctl) as [l Hl]. rewrite Hl. eauto.
+Qed.
+(* a block comment whose body has no "*/" -- any delimiters, quotes, stars and slashes in it -- is
+   taken exactly up to its terminator, whatever follows *)
+Theorem rust_comment_skips body rest : no_close_rc body = true ->
+  rust_comment (b "/*" ++ body ++ b "*/" ++ rest) = Ok body rest.
+Proof.
+  intros H. unfold rust_comment. fold rc_item.
+  destruct (many0_rc_items (List.length body) body rest (le_n _) H) as [l Hl].
+  eapply delimited_ok; [apply (tag_ok (b "/*"))| |apply (tag_ok (b "*/"))].
+  rewrite (recognize_ok _ _ _ _ Hl). unfold slice. rewrite !app_length.
+  replace (List.length body + (List.length (b "*/") + List.length rest) - (List.length (b "*/") + List.length rest)) with (List.length body) by lia.
+  rewrite firstn_app, firstn_all, Nat.sub_diag. cbn [firstn]. now rewrite app_nil_r.
+Qed.
+
+(* a string literal without backslashes: everything up to the next double quote, delimiters and
+   comment openers included *)
+Lemma slice_app a r : slice (a ++ r) r = a.
+Proof.
+  unfold slice. rewrite app_length. replace (List.length a + List.length r - List.length r) with (List.length a) by lia.
+  rewrite firstn_app, firstn_all, Nat.sub_diag. cbn [firstn]. now rewrite app_nil_r.
+Qed.
+Definition plain_str (c : N) : bool := negb (mem c [34%N; 92%N]).
+Theorem quoted_string_plain body rest : Forall (fun c => plain_str c = true) body -> utf8_valid (34%N :: body ++ [34%N]) = true ->
+  quoted_string (34%N :: body ++ 34%N :: rest) = Ok (34%N :: body ++ [34%N]) rest.
+Proof.
+  intros Hb V. unfold quoted_string. apply map_res_to_str_ok; [|exact V].
+  assert (R : delimited (char 34) (opt (escaped (is_not [34%N; 92%N]) 92 (one_of (b "'""\nrt0xu")))) (char 34) (34%N :: body ++ 34%N :: rest) = Ok (match body with [] => None | _ => Some body end) rest).
+  { eapply delimited_ok; [apply char_ok| |apply char_ok].
+    destruct body as [|c body].
+    { cbn [app]. unfold opt, escaped. cbn [List.length escaped_aux]. unfold is_not, take_while1. cbn [span mem negb]. change (N.eqb 34 34) with true. cbn [orb negb].
+      change (N.eqb 34 92) with false. cbv iota. rewrite Nat.eqb_refl. reflexivity. }
+    apply opt_ok. unfold escaped. cbn [app List.length escaped_aux].
+    assert (Sp : span plain_str ((c :: body) ++ 34%N :: rest) = (c :: body, 34%N :: rest)).
+    { rewrite (span_app_stop plain_str (c :: body) (34%N :: rest)); [|right; exists 34%N, rest; split; reflexivity].
+      assert (S0 : span plain_str (c :: body) = (c :: body, [])).
+      { clear -Hb. induction Hb as [|x l Hx Hl IH]; [reflexivity|]. cbn [span]. rewrite Hx, IH. reflexivity. }
+      rewrite S0. reflexivity. }
+    unfold is_not, take_while1. fold plain_str. change (c :: body ++ 34%N :: rest) with ((c :: body) ++ 34%N :: rest). rewrite Sp.
+    assert (X : Nat.eqb (List.length (34%N :: rest)) (S (List.length (body ++ 34%N :: rest))) = false).
+    { apply Nat.eqb_neq. rewrite app_length. cbn [List.length]. lia. }
+    rewrite X.
+    (* second round: the quote is neither ordinary nor the escape character *)
+    rewrite app_length. cbn [List.length]. rewrite Nat.add_succ_r. cbn [escaped_aux].
+    cbn [span]. assert (P34 : plain_str 34 = false) by reflexivity. rewrite P34. cbn [err1].
+    change (N.eqb 34 92) with false. cbv iota.
+    assert (Y : Nat.eqb (List.length (34%N :: rest)) (List.length ((c :: body) ++ 34%N :: rest)) = false).
+    { apply Nat.eqb_neq. rewrite app_length. cbn [List.length]. lia. }
+    rewrite Y. f_equal. rewrite app_length. cbn [List.length].
+    replace (S (List.length body) + S (List.length rest) - S (List.length rest)) with (List.length (c :: body)) by (cbn [List.length]; lia).
+    rewrite firstn_app, firstn_all, Nat.sub_diag. cbn [firstn]. now rewrite app_nil_r. }
+  rewrite (recognize_ok _ _ _ _ R). f_equal.
+  replace (34%N :: body ++ 34%N :: rest) with ((34%N :: body ++ [34%N]) ++ rest) by (cbn [app]; now rewrite <- app_assoc).
+  apply slice_app.
+Qed.
